@@ -680,9 +680,19 @@ def rule_comment_lex(prog):
         out.add(item, "comment text runs to the end of the line", None, loc, "body combinator not in the checker's table")
     else:
         stops, total = bc
-        out.add(item, "comment text runs to the end of the line", stops == {"\n"} and total, loc,
-                "the text of a comment must stop at a line feed and nowhere else, and consuming it must not fail: this combinator "
-                "stops at %s and %s" % (sorted(stops), "cannot fail" if total else "can fail (then `//` is lexed as two `/` and the rest as program text)"))
+        # what a line ending is, is decided together with the document layer: if its position converters end a line at a lone carriage
+        # return (LSP's third line ending), so does a comment - otherwise the comment swallows lines the client shows as program text
+        cr_is_eol = False
+        for lb in prog.lsp.bodies:
+            if lb["p"] in ("lsp4spl::document::as_position", "lsp4spl::document::get_insertion_index") or lb["p"].startswith("lsp4spl::document::position::"):
+                if any(l_.get("k") == "Lit" and l_["lit"].get("k") == "char" and l_["lit"].get("v") == "\r" for l_ in hir.nodes(lb["body"])):
+                    cr_is_eol = True
+        want_stops = {"\n", "\r"} if cr_is_eol else {"\n"}
+        ok_stops = total and "\n" in stops and stops <= {"\n", "\r"} and (want_stops <= stops)
+        out.add(item, "comment text runs to the end of the line", ok_stops, loc,
+                "the text of a comment must stop at the first character of a line ending (%s, as the position converters count line endings) and "
+                "nowhere else, and consuming it must not fail: this combinator stops at %s and %s" % (
+                    sorted(want_stops), sorted(stops), "cannot fail" if total else "can fail (then `//` is lexed as two `/` and the rest as program text)"))
     if cs is None:
         out.add(item, "a comment is closed by the line feed or by the end of the text", None, loc, "closing combinator not in the checker's table")
     else:
